@@ -3,6 +3,11 @@
     c03 nil <rule ptrTy|nilable> <admitsNil 0/1> <ownNilPath 0/1> <op>*     → "<model outcome>\t<spec verdict on the implementation's outcome>"
     c03 val …                                              → "same\tsame"   (a non-nil input must be validated as by the base schema;
                                                                                the harness compares with the base schema itself)
+    c03 wnil <rule> <admitsNil> <ownNilPath> <stack> <op>*   → the same under a chain of wrappers; <stack> is a word over T (`.Transform(fᵢ)`)
+                                                               and P (`.Pipe(targetᵢ)`), innermost first, i = position; observation =
+                                                               "<result> log=<callback log>", e.g. "ok:f2(f1(prefault:value)) log=f1(prefault:value);f2(f1(prefault:value))"
+    c03 wval <stack> <ok|bad> <op>*                          → a non-nil input the base accepts / rejects: "<result> log=<…> base=same"
+                                                               (base=same: the harness ran the unmodified base schema under the same wrappers and saw the same)
   op := Optional | Nilable | Nullish | NonOptional | Default:v|i | DefaultFunc:v|i | Prefault:v|i | PrefaultFunc:v|i | Overwrite | Refine
   The raw line is "<op line> @ <implementation outcome>"; the spec verdict echoes the implementation's
   outcome when `specNil` admits it and is "spec-rejects:<expected>" otherwise.
@@ -27,10 +32,25 @@ def renderOutcome : Outcome → String
   | .checkError => "err:checks" | .nonOptional => "err:nonoptional" | .nil => "nil"
   | .typeError => "err:type" | .refineError => "err:custom"
 
-def allOutcomes : List Outcome :=
-  [.dflt false, .dflt true, .prefaultOk false, .prefaultOk true, .checkError, .nonOptional, .nil, .typeError, .refineError]
-
 def parseOutcome (s : String) : Option Outcome := allOutcomes.find? (fun o => renderOutcome o == s)
+
+def parseStack (s : String) : Option (List W) :=
+  s.toList.mapM fun c => if c == 'T' then some W.tf else if c == 'P' then some W.pipe else none
+
+def renderV : V → String
+  | .src o => renderOutcome o
+  | .inp => "in"
+  | .app i v => "f" ++ toString i ++ "(" ++ renderV v ++ ")"
+
+def renderCall (c : Call) : String :=
+  (if c.pipe then "p" else "f") ++ toString c.id ++ "(" ++ renderV c.arg ++ ")"
+
+/-- `short`: a non-nil rejection is rendered without its class (the base schema decides the class). -/
+def renderObs (short : Bool) (p : R × List Call) : String :=
+  let r := match p.1 with
+    | .ok v => "ok:" ++ renderV v
+    | .err o => if short then "err" else renderOutcome o
+  r ++ " log=" ++ (if p.2.isEmpty then "-" else ";".intercalate (p.2.map renderCall))
 
 def handleLine (line : String) : String :=
   let (lhs, impl) := match line.splitOn " @ " with
@@ -38,6 +58,26 @@ def handleLine (line : String) : String :=
     | _ => (line, none)
   match (lhs.splitOn " ").filter (· ≠ "") with
   | "c03" :: "val" :: _ => "same\tsame"
+  | "c03" :: "wval" :: stack :: okbad :: ops =>
+    match parseStack stack, ops.mapM parseOp with
+    | some ws, some h =>
+      let inp := if okbad == "ok" then In.valid else In.invalid
+      let m := renderObs true ((wrap (applyAll .ptrTy {} h) ws).parse false inp) ++ " base=same"
+      let s := renderObs true (specValW (okbad == "ok") ws) ++ " base=same"
+      m ++ "\t" ++ s
+    | _, _ => "bad-op"
+  | "c03" :: "wnil" :: rule :: adm :: own :: stack :: ops =>
+    let rule := if rule == "nilable" then RefineRule.nilableFlag else RefineRule.ptrTy
+    let adm := adm == "1"
+    match parseStack stack, ops.mapM parseOp with
+    | some ws, some h =>
+      let m := if own == "1" then impl.getD "-" else renderObs false ((wrap (applyAll rule {} h) ws).parse adm .nil)
+      let admissible := (allOutcomes.filter (specNil adm h)).map fun o => renderObs false (specWrapped o ws)
+      let s := match impl with
+        | none => "-"
+        | some io => if admissible.contains io then io else "spec-rejects:expected " ++ " | ".intercalate admissible
+      m ++ "\t" ++ s
+    | _, _ => "bad-op"
   | "c03" :: "nil" :: rule :: adm :: own :: ops =>
     let rule := if rule == "nilable" then RefineRule.nilableFlag else RefineRule.ptrTy
     let adm := adm == "1"
